@@ -394,6 +394,13 @@ func (s *State) load(addr ssa.Value) Val {
 	if c, ok := s.V[k]; ok {
 		return c
 	}
+	// sentinel errors of other packages (io.EOF, io.ErrUnexpectedEOF, context.Canceled ...) are
+	// package-level variables that are never nil
+	if g, ok := s.Resolve(addr).(*ssa.Global); ok && g.Pkg != nil && !strings.HasPrefix(g.Pkg.Pkg.Path(), libPath) {
+		if p, ok := g.Type().Underlying().(*types.Pointer); ok && isErrorType(p.Elem()) {
+			return Val{N: NNon, Class: ClsOther}
+		}
+	}
 	// zero value of a fresh local cell
 	if a, ok := s.Resolve(addr).(*ssa.Alloc); ok {
 		if p, ok := a.Type().Underlying().(*types.Pointer); ok {
@@ -928,6 +935,15 @@ func (st *State) decide(cond ssa.Value) Boolv {
 			if x.Int != nil && y.Int != nil {
 				return b2((*x.Int == *y.Int) == (c.Op == token.EQL))
 			}
+			// identity with a sentinel: a value a rule labelled "is:io.EOF" compared with the load of
+			// that package-level variable (or of another one)
+			for _, pr := range [][2]ssa.Value{{c.X, c.Y}, {c.Y, c.X}} {
+				if lbl := st.Eval(pr[0]).Sym; strings.HasPrefix(lbl, "is:") {
+					if g := globalLoaded(st.Resolve(pr[1])); g != "" {
+						return b2((g == strings.TrimPrefix(lbl, "is:")) == (c.Op == token.EQL))
+					}
+				}
+			}
 			if x.Int != nil && y.Int == nil && strings.Contains(y.Not, fmt.Sprintf(";%d;", *x.Int)) ||
 				y.Int != nil && x.Int == nil && strings.Contains(x.Not, fmt.Sprintf(";%d;", *y.Int)) {
 				return b2(c.Op == token.NEQ)
@@ -1246,4 +1262,17 @@ func isUnsigned(t types.Type) bool {
 func isIntegerType(t types.Type) bool {
 	b, ok := t.Underlying().(*types.Basic)
 	return ok && b.Info()&types.IsInteger != 0
+}
+
+// globalLoaded names the package-level variable a value was loaded from ("io.EOF"), or "".
+func globalLoaded(v ssa.Value) string {
+	u, ok := v.(*ssa.UnOp)
+	if !ok || u.Op != token.MUL {
+		return ""
+	}
+	g, ok := u.X.(*ssa.Global)
+	if !ok || g.Pkg == nil {
+		return ""
+	}
+	return g.Pkg.Pkg.Name() + "." + g.Name()
 }
